@@ -143,8 +143,8 @@ pub fn run(jobs: Vec<DJob>, engine_timeout_ms: u64, scratch: &Path) -> DiskResul
     let res = orch::run_chunks(chunks.into_iter().map(|c| c.1).collect(), &opts, scratch);
     let mut outcomes = Vec::with_capacity(jobs.len());
     for i in 0..jobs.len() {
-        outcomes.push(res.get(&i).cloned().unwrap_or(Outcome::Abort {
-            status: "job lost by the orchestrator".into(),
+        outcomes.push(res.get(&i).cloned().unwrap_or_else(|| Outcome::Abort {
+            status: { crate::orch::note_harness_error("job lost by the orchestrator"); "job lost".into() },
             stderr_tail: String::new(),
         }));
     }
